@@ -88,6 +88,8 @@ mod log {
 
 #[cfg(not(wasm_browser))]
 pub use imp::UdpSocketState;
+#[cfg(all(unix, feature = "quinn_rs_quinn_verif"))]
+pub use imp::{verif_cmsg_consts, verif_control_len};
 
 /// Number of UDP packets to send/receive at a time
 #[cfg(not(wasm_browser))]
